@@ -10,6 +10,8 @@ THEOREMS = [
     "C35.ticks_at_k_period",
     "C35.periodic_state_threaded",
     "C35.interval_emits_naturals",
+    "C35.tick_rule",
+    "C35.closed_form_any_sleep",
     "C35.stops_on_dispose",
     "C35.stops_on_dispose_during_run",
     "C35.stops_after_raise",
@@ -20,7 +22,9 @@ RULE = ("1..3 periodic actions (periods 1..10, initial states 0/5/-2) scheduled 
         "boundaries; advance_to in one or several steps. Compared with the Lean model on the invocation log (task, clock, state), outcomes, final clock, "
         "pending count, handler calls. Plus several jobs on ONE CatchScheduler (schedule_periodic/interval/timer(p,p), one raising, one scheduled after the "
         "failure); oracle-only timer(d, p), d != p, and timer(d); oracle-only NewThreadScheduler.schedule_periodic under a controlled clock (per-call "
-        "clock advance 0..2 periods, dispose/raise inside the k-th call). non-trivial = at least two invocations of some action")
+        "clock advance 0..2 periods, dispose/raise inside the k-th call); EventLoopScheduler.schedule_periodic under a controlled clock (`now` overridden, "
+        "timed Condition.wait advances the clock; per-call clock advance 0..3 periods, dispose/raise in the k-th call) compared with the Lean periodic model "
+        "on (clock, state) of every call and checked against the property text. non-trivial = at least two invocations of some action")
 ASSUMPTIONS = ["theorems: virtual-time schedulers only (TestScheduler, VirtualTimeScheduler, HistoricalScheduler); integer times, period >= 1",
                "NewThreadScheduler runs use real threads with 1-2 ms periods and a controlled `now`; the single worker thread makes the call sequence deterministic",
                "single-threaded use"]
@@ -147,7 +151,10 @@ def _run_el(case):
     calls, handle = [], []
     st0 = case["st0"]
 
+    ready = threading.Event()
+
     def action(state):
+        ready.wait(3.0)     # the loop thread may get here before the caller has stored the handle
         k = state - st0
         calls.append([1, clock[0], state])
         if len(calls) > 40:
@@ -159,8 +166,8 @@ def _run_el(case):
             raise fw.InjectedError(f"p1s{state}")
         return state + 1
 
-    with sched._condition:   # hold the loop thread back until the handle is stored
-        handle.append(sched.schedule_periodic(case["period_us"] / 1e6, action, st0))
+    handle.append(sched.schedule_periodic(case["period_us"] / 1e6, action, st0))
+    ready.set()
     for t in threads:
         t.join(5.0)
     alive = any(t.is_alive() for t in threads)
@@ -379,11 +386,15 @@ LEVEL_TEXT = ("Lean, on the model of PeriodicScheduler.schedule_periodic (and Ca
               "and after the action raises, it is never invoked again whatever calls follow (invariant over all scripts with any number of tasks); the "
               "advance_to loop over self-rescheduling work terminates (decreasing weight). Tied to /repo by differential runs on the three virtual-time "
               "schedulers incl. reactivex.interval/timer, and an oracle from the property text.")
-LEVEL_NOTE = ("Theorems and model are for virtual time only. Real-thread periodic schedulers: NewThreadScheduler.schedule_periodic is exercised by an ORACLE-ONLY "
-              "controlled-clock run (subclass overriding `now`; state threading and 'no call after dispose/raise', including overrunning actions; not the timing, "
-              "not modelled in Lean); EventLoopScheduler periodic (PeriodicScheduler.schedule_periodic over its timer queue) is NOT covered by this check. "
+LEVEL_NOTE = ("Theorems and model are for virtual time. Real-thread periodic schedulers under a controlled clock: EventLoopScheduler.schedule_periodic (it IS "
+              "PeriodicScheduler.schedule_periodic over the loop's schedule_relative) runs on its real loop thread with `now` overridden and timed waits turned into "
+              "clock jumps, and is compared call by call (clock, state) with the Lean periodic model — the model's theorems transfer to it only through that "
+              "correspondence (one job, one loop thread; thread interleavings of the event loop are C31's subject); NewThreadScheduler.schedule_periodic (its own "
+              "loop, not modelled in Lean) is ORACLE-ONLY: state threading and 'no call after dispose/raise', including overrunning actions, not the timing. "
               "CatchScheduler is covered over a virtual-time inner scheduler. "
-              "The closed form is for one task on an otherwise idle scheduler with in-call sleeps <= period; with several tasks or longer sleeps only the "
-              "stop/threading invariants are proved (timing then depends on the other work) — the correspondence covers those mixes. timer(d, p) with d != p "
+              "Closed forms are for one task on an otherwise idle scheduler (ticks_at_k_period: sleeps <= period, ticks exactly on the multiples; "
+              "closed_form_any_sleep: any sleep, next call max(period, sleep) after the previous one started). With several tasks the timing depends on the other "
+              "work; what is proved there is the per-tick rule (tick_rule: invoked at max(clock, due), next tick due = start of this call + period, state threaded) "
+              "and the stop invariants — the correspondence covers those mixes. timer(d, p) with d != p "
               "(absolute rescheduling in observable/timer.py) is checked by the oracle only, not modelled. period <= 0 (the real advance_to then spins for ever) "
               "is outside the model (reported as `stuck`).")
